@@ -255,7 +255,8 @@ impl AsyncWrite for ScriptStream {
         Poll::Ready(Ok(()))
     }
     fn poll_shutdown(self: Pin<&mut Self>, _cx: &mut Context<'_>) -> Poll<std::io::Result<()>> {
-        Poll::Ready(Ok(()))
+        // the peer is gone by the time anybody could want to shut this direction down: ENOTCONN, as a socket says then
+        Poll::Ready(Err(std::io::Error::new(std::io::ErrorKind::NotConnected, "not connected")))
     }
     fn is_write_vectored(&self) -> bool {
         self.gathers
